@@ -286,6 +286,9 @@ def run_shard(ctx):
         elif i % 10 == 7:
             text, ordered, feats = fedgen.star_query(r), False, {'star-over-nested'}
             acc.count('star_shapes')
+        elif i % 10 == 8:
+            text, ordered, feats = fedgen.isnull_outer(r), False, {'isnull-under-outer-join'}
+            acc.count('isnull_outer_shapes')
         elif i % 10 == 6:
             text, ops = selgen.setop_chain(r, fedgen.qual_multi)
             ordered, feats = False, {'setop-chain'} | {'setop:' + o for o in ops}
